@@ -9,7 +9,7 @@ import units2v
 
 PID = "C20"
 COQ = os.path.join(vbuild.VERIF, "coq")
-FILES = os.path.join(vbuild.BUILD, "run", "C20", "files")
+FILES = os.path.join(os.environ.get("VERIF_SCRATCH") or vbuild.BUILD, "run", "C20", "files")     # a run on a copy of the repository (VERIF_SCRATCH) writes its own files
 RULE = ("non-trivial = an Export_Table/Import_Table round trip of a table with >= 2 columns whose unit factors differ by >= 10 decades "
         "and a multi-line header (>= 2 header lines); distinct by case text")
 LEVEL_TEXT = (
@@ -24,7 +24,7 @@ LEVEL_TEXT = (
     "fmt6(x/dim)*dim; likewise lists and tabulated functions; over the reals, with |fmt6 y - y| <= 5e-6|y| as an explicit premise, every entry is within 5e-6 relative. "
     "NOT theorems (checked per run by correspondence and implementation-side predicates): that iostreams implement such an fmt6 (the real writer/reader run on tables "
     "1..200 x 1..12, values over 600 decades, units over 60 decades, multi-line and numeric headers), that the compilers' folded static values are the denotation "
-    "(each build's constants are read after start-up and compared with the exact denotation), Round's numerical accuracy (property C17), the character-level skipping of header lines (probed with lines of up to 25000 characters), values whose quotient by the unit is not a normal finite double (excluded and counted).")
+    "(each build's constants are read after start-up and compared with the exact denotation), Round's numerical accuracy (property C17), the character-level skipping of header lines (probed with lines of up to 25000 characters), the byte-level buffering of the readers and of the line counter (the line/token model has no byte count: exported and raw files are aimed, through the header length or the width of the entries, at sizes k*B and k*B+-1 for B = 512..65536, and the sizes reached are reported in coverage.size_aimed_files), values whose quotient by the unit is not a normal finite double (excluded and counted).")
 LEVEL_NOTE = ("Coq 8.16.1 kernel; theorems over R use the standard library's real-number axioms (listed), shape theorems are axiom-free; T-tie translator tools/units2v.py "
               "(line-level parser; rejects anything it does not understand) validated each run by comparing every constant of four real builds with the exact "
               "rational evaluation of the parsed expressions; premise fmt6 accuracy inside the precision theorems; file = list of lines of tokens (character level, "
@@ -39,6 +39,7 @@ ASSUMPTIONS = ["a header line is skipped whatever its length (ignore(max,'\\n') 
                "(cases outside are excluded from generation and counted in coverage.excluded_not_finite_normal)",
                "row count and row*column count below 2^32 (unsigned int arithmetic of Import_Table)"]
 EXCLUDED = {"n": 0}
+SIZED = {}          # path -> byte sizes the generator aimed the files exported to that path at (checked with stat in the extra stage)
 EPS = 2.0 ** -53
 
 
@@ -126,6 +127,209 @@ FEXPRS = [("x", lambda x: x), ("* c %s x" % hx(2.5), lambda x: 2.5 * x), ("+ x c
 
 
 def table_line(t): return f"{len(t)} " + " ".join(flist(r) for r in t) if t else "0"
+
+
+# ------------------------------------------------------------------ files of a chosen byte size
+# The text the writers produce is known in advance: operator<< at the default precision 6 is "%g" of x/dim, entries of a row are separated by
+# one tab, rows by one newline (Export_Table leaves the last row unterminated, Export_List terminates every line), a non-empty header is
+# followed by one newline.  So the size of the exported file can be steered: through the length of the header (any text, any number of lines)
+# or, for header-less files, through the number of characters the entries take.  Targets: k*B + delta for the usual buffer / block / page
+# sizes B (stream buffers of 512..8192 bytes, read blocks of 4096..65536 bytes), delta = 0 mostly, +-1 and a few bytes further as controls.
+BLOCKS = [512, 1024, 2048, 4096, 8192, 16384, 32768, 65536]
+COMMENT_WORDS = ["columns:", "E[keV]", "dR/dE", "[1/kg/day/keV]", "generated", "by", "libphysica", "v0.1.5", "halo", "model", "SHM", "rho=0.4", "GeV/cm^3", "run", "17",
+                 "2.5", "1e-45", "cm^2", "mass", "sigma", "-", "--", "|", "x", "y", "z"]
+
+
+def text6(q): return "%g" % q
+
+
+def table_text_size(t, dims):
+    n = len(t) - 1
+    for row in t:
+        n += len(row) - 1 + sum(len(text6(x / (dims[j] if dims else 1.0))) for j, x in enumerate(row))
+    return n
+
+
+def list_text_size(l, d): return sum(len(text6(x / d)) + 1 for x in l)
+
+
+def size_targets(rng, n, lo, hi):
+    """n sizes k*B + delta inside [lo, hi]: every block size that fits (first multiples first), then random multiples"""
+    out = []
+    for B in BLOCKS:
+        for k in (1, 2):
+            for delta in (0, -1, 1):
+                if lo <= k * B + delta <= hi: out.append(k * B + delta)
+    rng.shuffle(out)
+    zero = [T for T in out if any(T % B == 0 for B in BLOCKS[:1])]
+    out = zero + [T for T in out if T not in zero]       # exact multiples first when n is small
+    out = out[:n]
+    while len(out) < n:
+        B = rng.choice(BLOCKS); kmax = hi // B
+        if kmax < 1: continue
+        T = rng.randint(1, kmax) * B + rng.choice([0, 0, 0, 0, 0, -1, 1, -1, 1, -2, 2, rng.randint(-9, 9)])
+        if lo <= T <= hi: out.append(T)
+    return out
+
+
+def sized_header_lines(rng, L, spaces=True):
+    """header text of exactly L >= 1 characters (newlines between its lines included) as a list of lines: comment lines of varying
+    widths (short lines, lines around the buffer sizes, one very long line), now and then an empty line"""
+    style = rng.choice(["short", "short", "mixed", "long", "blocky"])
+    lines = []; rem = L
+    while True:
+        if style == "short": w = rng.randint(1, 100)
+        elif style == "long": w = rem
+        elif style == "blocky": w = rng.choice(BLOCKS[:6]) + rng.choice([-2, -1, 0, 1])
+        else: w = rng.choice([1, 2, rng.randint(3, 80), rng.randint(3, 80), rng.randint(100, 3000), 4095, 4096, 8191, 8192])
+        if lines and rem >= 4 and rng.random() < 0.02: w = 0             # an empty line inside the header
+        w = min(w, rem)
+        if rem - w == 1:                                                  # one character cannot hold "newline + a non-empty line"
+            if rng.random() < 0.15: pass                                  # ... but it can hold the newline alone: the header ends with an empty line
+            elif w >= 2: w -= 1
+            else: w += 1
+        if w == 0: lines.append("")
+        else:
+            txt = "#"
+            while len(txt) < w:
+                txt += (" " if spaces else "_") + rng.choice(COMMENT_WORDS)
+            lines.append(txt[:w] if spaces else txt[:w].replace(" ", "_"))
+        rem -= w
+        if rem == 0: break
+        rem -= 1                                                          # the newline before the next line
+        if rem == 0: lines.append(""); break
+    return lines
+
+
+def value_of_text_length(rng, n):
+    """a double whose six-digit text has exactly n characters, 1 <= n <= 13"""
+    for _ in range(200):
+        forms = []
+        if n <= 6: forms.append("int")
+        if 2 <= n <= 7: forms.append("negint")
+        if 3 <= n <= 7: forms.append("dec")
+        if 4 <= n <= 8: forms.append("negdec")
+        if n >= 5: forms.append("exp")
+        f = rng.choice(forms)
+        if f == "int": s = str(rng.randint(10 ** (n - 1) if n > 1 else 0, 10 ** n - 1))
+        elif f == "negint": s = "-" + str(rng.randint(10 ** (n - 2) if n > 2 else 1, 10 ** (n - 1) - 1))
+        elif f in ("dec", "negdec"):
+            m = n - 1 - (f == "negdec")                                   # digits
+            digs = str(rng.randint(10 ** (m - 1), 10 ** m - 1))
+            if digs[-1] == "0": digs = digs[:-1] + str(rng.randint(1, 9))
+            k = rng.randint(1, m - 1)
+            s = ("-" if f == "negdec" else "") + digs[:k] + "." + digs[k:]
+        else:
+            neg = rng.random() < 0.5; e3 = rng.random() < 0.4
+            m = n - neg - (5 if e3 else 4)                                # characters of the mantissa
+            if m == 2 or m < 1 or m > 7: continue
+            md = m if m == 1 else m - 1
+            digs = str(rng.randint(10 ** (md - 1), 10 ** md - 1))
+            if md > 1 and digs[-1] == "0": digs = digs[:-1] + str(rng.randint(1, 9))
+            mant = digs if md == 1 else digs[0] + "." + digs[1:]
+            ex = rng.randint(100, 250) if e3 else rng.randint(10, 99)
+            s = ("-" if neg else "") + mant + "e" + rng.choice("+-") + str(ex)
+        x = float(s)
+        if text6(x) == s and len(s) == n: return x
+    raise RuntimeError("no value with a text of %d characters" % n)
+
+
+def tuned_values(rng, count, total, unit):
+    """`count` values (multiples of the power-of-two unit, so that the quotient is exact) whose six-digit texts take `total` characters together"""
+    lens = [rng.randint(1, 13) for _ in range(count)]
+    diff = total - sum(lens)
+    while diff:
+        i = rng.randrange(count)
+        step = max(-(lens[i] - 1), min(13 - lens[i], diff))
+        lens[i] += step; diff -= step
+    return [value_of_text_length(rng, n) * unit for n in lens]
+
+
+def generate_sized(rng, tier, cs):
+    """export/import round trips (and raw files) whose byte size is k*B + delta"""
+    big = tier != "quick"
+    SIZED.clear()
+    ctr = [0]
+    def spath():
+        ctr[0] += 1; return os.path.join(FILES, "sz_%d.txt" % (ctr[0] % 192))
+    def tag(T): return "file-size:multiple-of-block" if any(T % B == 0 for B in BLOCKS) else "file-size:near-multiple"
+    def units_for(c_):
+        u = rng.random()
+        if u < 0.2: return []
+        dims = [rand_unit(rng) for _ in range(c_)]
+        if u < 0.6 and c_ >= 2: dims[0] = 10.0 ** rng.uniform(-30, -8); dims[-1] = 10.0 ** rng.uniform(4, 30); rng.shuffle(dims)
+        return dims
+    # ---- tables, size reached through the header
+    for T in size_targets(rng, 420 if big else 44, 500, 200000 if big else 140000):
+        c_ = rng.randint(1, 12)
+        r_ = rng.choice([1, 2, 3, 7, 20, 64, 100, 181, 200, rng.randint(1, 200), rng.randint(1, 200)])
+        r_ = max(1, min(r_, (T - 40) // (14 * c_)))       # leave room for a header
+        dims = units_for(c_)
+        t = [[value_for(rng, dims[j] if dims else 1.0) for j in range(c_)] for _ in range(r_)]
+        while len(t) > 1 and table_text_size(t, dims) > T - 2: t.pop()
+        L = T - 1 - table_text_size(t, dims)
+        if L < 1: continue
+        h = "\n".join(sized_header_lines(rng, L)); p = spath(); SIZED.setdefault(p, set()).add(T)
+        cs.append(Case(f"rt_table {p} {hexs(h)} {table_line(t)} {flist(dims)} -1", ("roundtrip", "table", "size-aimed", tag(T))))
+    # ---- tables without header: size reached through the number of characters of the entries
+    for T in size_targets(rng, 200 if big else 26, 500, 33500):
+        for _ in range(50):
+            c_ = rng.randint(1, 12); a = rng.uniform(2.5, 12.4)
+            r_ = max(1, min(200, round((T + 1) / ((a + 1) * c_)))); n = r_ * c_
+            if n <= T - (n - 1) <= 13 * n: break
+        else: r_, c_ = 200, 12; n = 2400
+        if not (n <= T - (n - 1) <= 13 * n): continue
+        dims = [] if rng.random() < 0.5 else [2.0 ** rng.randint(-90, 90) for _ in range(c_)]
+        lensum = T - (n - 1)
+        # distribute over the columns: tuned_values works per unit
+        flat = tuned_values(rng, n, lensum, 1.0)
+        t = [[flat[i * c_ + j] * (dims[j] if dims else 1.0) for j in range(c_)] for i in range(r_)]
+        if table_text_size(t, dims) != T or not all(pair_ok(x, dims[j] if dims else 1.0) for row in t for j, x in enumerate(row)): continue
+        p = spath(); SIZED.setdefault(p, set()).add(T)
+        cs.append(Case(f"rt_table {p} - {table_line(t)} {flist(dims)} -1", ("roundtrip", "table", "size-aimed", "no-header", tag(T))))
+    # ---- lists (every line terminated), with header and without
+    for T in size_targets(rng, 120 if big else 14, 500, 140000):
+        d = rand_unit(rng); n = rng.choice([0, 1, 2, 3, 10, 50, 200])
+        n = max(0, min(n, (T - 40) // 14))
+        l = [value_for(rng, d) for _ in range(n)]
+        L = T - 1 - list_text_size(l, d)
+        if L < 1: continue
+        h = "\n".join(sized_header_lines(rng, L)); p = spath(); SIZED.setdefault(p, set()).add(T)
+        cs.append(Case(f"rt_list {p} {hexs(h)} {flist(l)} {hx(d)}", ("roundtrip", "list", "size-aimed", tag(T))))
+    for T in size_targets(rng, 60 if big else 8, 500, 2700):
+        d = 2.0 ** rng.randint(-90, 90)
+        n = max((T + 13) // 14, min(200, round(T / (rng.uniform(2.5, 12.4) + 1))))
+        if not (n <= T - n <= 13 * n): continue
+        l = tuned_values(rng, n, T - n, d)
+        if list_text_size(l, d) != T or not all(pair_ok(x, d) for x in l): continue
+        p = spath(); SIZED.setdefault(p, set()).add(T)
+        cs.append(Case(f"rt_list {p} - {flist(l)} {hx(d)}", ("roundtrip", "list", "size-aimed", "no-header", tag(T))))
+    # ---- tabulated functions (two columns), size reached through the header
+    for T in size_targets(rng, 100 if big else 10, 500, 140000):
+        fe, f = rng.choice(FEXPRS)
+        n = rng.choice([1, 2, 3, 10, 40, 200]); xs = sorted(rng.uniform(-5, 5) if rng.random() < 0.7 else 10.0 ** rng.uniform(-20, 2) for _ in range(n))
+        dims = [] if rng.random() < 0.3 else [10.0 ** rng.uniform(-12, 12), 10.0 ** rng.uniform(-12, 12)]
+        t = [[x, f(x)] for x in xs]
+        if not all(pair_ok(x, dims[j] if dims else 1.0) for row in t for j, x in enumerate(row)): continue
+        L = T - 1 - table_text_size(t, dims)
+        if L < 1: continue
+        h = "\n".join(sized_header_lines(rng, L)); p = spath(); SIZED.setdefault(p, set()).add(T)
+        cs.append(Case(f"rt_func {p} {hexs(h)} {fe} {flist(xs)} {flist(dims)}", ("roundtrip", "function-list", "size-aimed", tag(T))))
+    # ---- files not written by Export_*: regular tables / lists behind a comment block, last line terminated or not
+    for T in size_targets(rng, 200 if big else 24, 500, 140000):
+        which = 0 if rng.random() < 0.3 else 1
+        r_ = rng.choice([1, 2, 3, 5, 40]); c_ = rng.choice([1, 2, 3])
+        body = [[repr(rng.choice([rng.randint(-999, 999), round(rng.uniform(-10, 10), 3), float("%.5e" % (10.0 ** rng.uniform(-30, 30)))])) for _ in range(c_)] for _ in range(r_)]
+        term = int(rng.random() < 0.4)
+        L = T - 1 - term - (sum(len(w) for row in body for w in row) + r_ * (c_ - 1) + r_ - 1)
+        if L < 1: continue
+        hl = sized_header_lines(rng, L, spaces=False)
+        lines = [[l] if l else [] for l in hl] + body
+        dims = [] if rng.random() < 0.5 else [float(rng.choice([1, 2, 1000])) for _ in range(c_)]
+        if which == 0: dims = dims[:1]
+        spec = " ".join(f"{len(l)} " + " ".join(l) if l else "0" for l in lines)
+        p = spath(); SIZED.setdefault(p, set()).add(T)
+        cs.append(Case(f"import_raw {p} {which} {term} {len(lines)} {spec} {flist(dims)} {len(hl)}", ("guards", "raw-regular", "size-aimed", tag(T))))
 
 
 # ------------------------------------------------------------------ generation
@@ -243,6 +447,8 @@ def generate(rng, tier):
         if which == 0: dims = dims[:1]
         spec = " ".join(f"{len(l)} " + " ".join(l) if l else "0" for l in lines)
         cs.append(Case(f"import_raw {os.path.join(FILES, 'raw.txt')} {which} {term} {len(lines)} {spec} {flist(dims)} {ign}".replace("  ", " "), ("guards", "raw-" + kind)))
+    # ---- files whose byte size sits on / next to a multiple of a buffer or block size
+    generate_sized(rng, tier, cs)
     return cs
 
 
@@ -422,7 +628,24 @@ def predicates(c, io):
 
 # ------------------------------------------------------------------ T-tie
 def regenerate():
-    return units2v.regenerate(vbuild.REPO, COQ)
+    # under the build lock: no build of the development runs while the generated file is replaced
+    with vbuild.Lock("coq"):
+        log = units2v.regenerate(vbuild.REPO, COQ)
+        # runs against different source trees (a copy with a change under VERIF_REPO) share this file: a compiled file whose source
+        # was replaced during its compilation is newer than the source and yet holds other definitions.  coqc records the digest of
+        # the text it compiled in the .glob file; a compiled file made from another text than the present one is discarded.
+        v = os.path.join(COQ, "Gen_C20_Units.v")
+        try:
+            first = open(v[:-2] + ".glob").readline().split()
+            stale = len(first) == 2 and first[0] == "DIGEST" and first[1] != hashlib.md5(open(v, "rb").read()).hexdigest()
+        except OSError:
+            stale = False
+        if stale:
+            for ext in (".vo", ".vos", ".vok", ".glob"):
+                try: os.remove(v[:-2] + ext)
+                except OSError: pass
+            log = (log + "; " if log else "") + "stale compiled Gen_C20_Units discarded"
+    return log
 
 
 # the property's identities, evaluated on the values each build holds after start-up (S4 for the units clause);
@@ -624,6 +847,15 @@ def extra(ctx, rng):
         out["long_header_probes"] = {"cases": len(probes), "header_line_lengths": [9999, 10000, 10001, 25000], "failing": nbad}
     except Exception as e:
         out["long_header_probes"] = {"error": repr(e)[:300]}
+    # did the files aimed at a byte size get that size?  (coverage of the size-aimed stream, not a clause of the property)
+    hit = miss = 0; seen_sizes = set()
+    for pth, T in SIZED.items():
+        try: sz = os.stat(pth).st_size
+        except OSError: continue
+        if sz in T: hit += 1; seen_sizes.add(sz)       # (paths are reused: any of the sizes aimed at for this path)
+        else: miss += 1
+    out["size_aimed_files"] = {"files_examined": hit + miss, "of_the_size_aimed_at": hit, "block_sizes": BLOCKS,
+                               "exact_multiples_reached": sorted(T for T in seen_sizes if T % BLOCKS[0] == 0)[:60]}
     out["unit_configurations"] = cfg
     out["unit_constants"] = len(names)
     return out
